@@ -3,35 +3,49 @@
 
   Reading guide.  `Num` is goja's two-representation Number, `Canon` its canonical form, `toF64` the double a
   value denotes.  Mechanism definitions (`floatToValue`, `intToValue`, `sameAs`, `strictEquals`, `mapFinds`,
-  `toIntS`, …, `opAdd` …) transcribe the Go code; `spec…` definitions are the ECMAScript abstract operations on
-  the denoted double.  `Tail.raw`/`Core.raw` is the code at the pinned commit, `Tail.canon`/`Core.mod` the
-  repaired shapes; which one the current source has is regenerated on every run (`Tie.lean`).
+  `toIntS`, …, `opAdd` …, `StrNum.mech`) transcribe the Go code of /repo as it is now (after the C05 `fix:` commits);
+  `spec…` definitions are the ECMAScript abstract operations on the denoted double.  All statements are for ALL
+  doubles / integers / operands; nothing is `_partial` any more.  `…_prefix_witness` lemmas are regression lemmas
+  about the mechanism BEFORE a fix (they say why the fixed shape, pinned by `Tie.lean`, matters).
 -/
 import GojaModel.C05.Lemmas
+import GojaModel.C05.StrLemmas
 
 namespace GojaModel.C05.Props
 open GojaModel GojaModel.Num GojaModel.C05
 
-/-! ## 1. Canonicalisers -/
+/-! ## 1. Canonicalisers: canonical AND value preserving -/
 
 /-- `floatToValue` canonicalises EVERY bit pattern (all NaN payloads ↦ the one `_NaN`, integral doubles of
 magnitude ≤ 2^53 other than -0 ↦ `valueInt`, +0.0 ↦ int 0, …). -/
 theorem canon_floatToValue (f : F64) : Canon (floatToValue f) := C05.canon_floatToValue f
 
+/-- … and keeps the denoted double (SameValue, i.e. up to the NaN payload). -/
+theorem floatToValue_denotes (f : F64) : specSameValue (floatToValue f).toF64 f = true := floatToValue_denotes' f
+
+/-- so `floatToValue r` is THE canonical value denoting `r`: any canonical value denoting `r` equals it. -/
+theorem floatToValue_unique {a : Num} (ha : Canon a) {r : F64} (h : specSameValue a.toF64 r = true) :
+    a = floatToValue r := floatToValue_unique' ha h
+
 /-- `toNumeric` re-canonicalises any `valueFloat`. -/
 theorem canon_toNumeric_flt (f : F64) : Canon (toNumeric (flt f)) := C05.canon_floatToValue f
 
-/-- With the repaired tail `intToValue` is canonical for every integer. -/
-theorem canon_intToValue_fixed (i : Int) : Canon (intToValue .canon i) := canon_intToValue_canon i
+/-- `intToValue` is canonical for every integer … -/
+theorem canon_intToValue (i : Int) : Canon (intToValue i) := canon_intToValue_canon i
 
-/-- PARTIAL (code at the pinned commit): only integers of magnitude ≤ 2^53 are covered; missing: 2^53 < |i| < 2^63,
-where the result is canonical except at ±(2^53+1) (see the witness below; the rest is checked by the
-correspondence against `Canon`'s decision procedure, not proved). -/
-theorem canon_intToValue_raw_partial {i : Int} (h1 : -maxInt ≤ i) (h2 : i ≤ maxInt) : Canon (intToValue .raw i) :=
-  canon_intToValue_inrange .raw h1 h2
+/-- … and denotes `float64(i)`: `i` itself up to 2^53, the correctly rounded double beyond. -/
+theorem intToValue_denotes (i : Int) : specSameValue (intToValue i).toF64 (F64.ofInt i) = true :=
+  intToValue_denotes' i
 
-/-- DEFECT witness: `intToValue(2^53+1)` = `valueFloat(9007199254740992)`, not canonical. -/
-theorem intToValue_raw_not_canon_witness : ¬ Canon (intToValue .raw (2 ^ 53 + 1)) := by decide
+/-- the int branch of `floatToValue` loses nothing: `floatToInt f = some i` only if `float64(i)` is `f` again. -/
+theorem floatToInt_exact {f : F64} {i : Int} (h : floatToInt f = some i) : F64.ofInt i = f := floatToInt_ofInt h
+
+/-- Regression lemma (before 287714a `intToValue` ended in `valueFloat(i)`): `intToValue(2^53+1)` was the float
+2^53, not canonical, and `SameAs` then disagreed with itself in the two argument orders. -/
+theorem intToValue_prefix_witness :
+    ¬ Canon (intToValuePrefix (2 ^ 53 + 1)) ∧
+    sameAs (int (2 ^ 53)) (intToValuePrefix (2 ^ 53 + 1)) = false ∧
+    sameAs (intToValuePrefix (2 ^ 53 + 1)) (int (2 ^ 53)) = true := by decide
 
 /-! ## 2. Canonical ⇒ unique ⇒ identity operations are the spec's -/
 
@@ -50,11 +64,6 @@ theorem sameAs_symm_of_canon {a b : Num} (ha : Canon a) (hb : Canon b) : sameAs 
   congr 1
   exact Bool.eq_iff_iff.2 ⟨fun h => by simpa using (beq_iff_eq.1 h).symm, fun h => by simpa using (beq_iff_eq.1 h).symm⟩
 
-/-- The asymmetry is real without canonical form: the witness behind `Object.is(2^53, 2^53+1)`. -/
-theorem sameAs_asymmetric_noncanon_witness :
-    sameAs (int (2 ^ 53)) (intToValue .raw (2 ^ 53 + 1)) = false ∧
-    sameAs (intToValue .raw (2 ^ 53 + 1)) (int (2 ^ 53)) = true := by decide
-
 /-- `===` is IEEE equality of the denoted doubles. -/
 theorem strictEquals_eq_spec {a b : Num} (ha : Canon a) (hb : Canon b) :
     strictEquals a b = specStrictEq a.toF64 b.toF64 := strictEquals_eq_spec' ha hb
@@ -62,6 +71,16 @@ theorem strictEquals_eq_spec {a b : Num} (ha : Canon a) (hb : Canon b) :
 /-- Map/Set lookup (key normalisation + hash bucket + `SameAs`) is SameValueZero on canonical keys. -/
 theorem mapFinds_eq_spec {a b : Num} (ha : Canon a) (hb : Canon b) :
     mapFinds a b = specSameValueZero a.toF64 b.toF64 := mapFinds_eq_spec' ha hb
+
+/-- `Array.prototype.includes` after dd517b9 (search value AND element normalised, then `SameAs`) is SameValueZero. -/
+theorem includesFinds_eq_spec {a b : Num} (ha : Canon a) (hb : Canon b) :
+    includesFinds a b = specSameValueZero a.toF64 b.toF64 := includesFinds_eq_spec' ha hb
+
+/-- Regression lemma (before dd517b9 only the search value was normalised): an element -0 was never found. -/
+theorem includes_prefix_witness :
+    sameAs (normKey (flt F64.negZero)) (flt F64.negZero) = false ∧
+    specSameValueZero F64.negZero F64.negZero = true := by
+  refine ⟨by decide, by decide⟩
 
 /-- hence: SameValueZero-equal canonical keys land in the same hash bucket. -/
 theorem hash_eq_of_sameValueZero {a b : Num} (ha : Canon a) (hb : Canon b)
@@ -76,110 +95,156 @@ theorem mapFinds_nan_payload_witness :
     mapFinds (flt F64.canonNaN) (flt (F64.mk' true 2047 1)) = false ∧
     specSameValueZero F64.canonNaN (F64.mk' true 2047 1) = true := by decide
 
-/-! ## 3. Operators produce canonical results (repaired tail: for ALL operands and ANY float-path result `r`) -/
+/-! ## 3. Operators: canonical results for ALL operands and ANY float-path result `r`;
+the result is the canonical value of `r` on the float paths and of the exact integer result on the int paths -/
 
-theorem add_canon (c : Core) (z : MulZ) (a b : Num) (r : F64) : Canon (opAdd ⟨.canon, c, z⟩ a b r) := opAdd_canon' c z a b r
-theorem sub_canon (c : Core) (z : MulZ) (a b : Num) (r : F64) : Canon (opSub ⟨.canon, c, z⟩ a b r) := opSub_canon' c z a b r
-theorem mul_canon (c : Core) (z : MulZ) (a b : Num) (r : F64) : Canon (opMul ⟨.canon, c, z⟩ a b r) := opMul_canon' c z a b r
-theorem div_canon (c : Core) (z : MulZ) (a b : Num) (r : F64) : Canon (opDiv ⟨.canon, c, z⟩ a b r) := opDiv_canon' c z a b r
-theorem mod_canon (c : Core) (z : MulZ) (a b : Num) (r : F64) : Canon (opMod ⟨.canon, c, z⟩ a b r) := opMod_canon' c z a b r
-theorem neg_canon (c : Core) (z : MulZ) {a : Num} (ha : Canon a) (r : F64) : Canon (opNeg ⟨.canon, c, z⟩ a r) := opNeg_canon' c z ha r
-theorem inc_canon (c : Core) (z : MulZ) (a : Num) (r : F64) : Canon (opInc ⟨.canon, c, z⟩ a r) := opInc_canon' c z a r
-theorem dec_canon (c : Core) (z : MulZ) (a : Num) (r : F64) : Canon (opDec ⟨.canon, c, z⟩ a r) := opDec_canon' c z a r
+theorem add_canon (a b : Num) (r : F64) : Canon (opAdd a b r) := opAdd_canon' a b r
+theorem sub_canon (a b : Num) (r : F64) : Canon (opSub a b r) := opSub_canon' a b r
+theorem mul_canon (a b : Num) (r : F64) : Canon (opMul a b r) := opMul_canon' a b r
+theorem div_canon (a b : Num) (r : F64) : Canon (opDiv a b r) := opDiv_canon' a b r
+theorem mod_canon (a b : Num) (r : F64) : Canon (opMod a b r) := opMod_canon' a b r
+theorem neg_canon {a : Num} (ha : Canon a) (r : F64) : Canon (opNeg a r) := opNeg_canon' ha r
+theorem inc_canon (a : Num) (r : F64) : Canon (opInc a r) := opInc_canon' a r
+theorem dec_canon (a : Num) (r : F64) : Canon (opDec a r) := opDec_canon' a r
 
-/-- Bitwise operators: canonical with EITHER tail (a 32-bit result never reaches `intToValue`'s tail). -/
-theorem and_canon (s : Shapes) (a b : Num) : Canon (opAnd s a b) := by
+theorem and_canon (a b : Num) : Canon (opAnd a b) := by
   unfold opAnd
-  have h := bit32_range Nat.land (toInt32 s (toNumeric a)) (toInt32 s (toNumeric b))
-  generalize bit32 Nat.land (toInt32 s (toNumeric a)) (toInt32 s (toNumeric b)) = z at *
-  exact canon_intToValue_inrange _ h.1 h.2
-theorem or_canon (s : Shapes) (a b : Num) : Canon (opOr s a b) := by
+  have h := bit32_range Nat.land (toInt32 (toNumeric a)) (toInt32 (toNumeric b))
+  generalize bit32 Nat.land (toInt32 (toNumeric a)) (toInt32 (toNumeric b)) = z at *
+  exact canon_intToValue_inrange h.1 h.2
+theorem or_canon (a b : Num) : Canon (opOr a b) := by
   unfold opOr
-  have h := bit32_range Nat.lor (toInt32 s (toNumeric a)) (toInt32 s (toNumeric b))
-  generalize bit32 Nat.lor (toInt32 s (toNumeric a)) (toInt32 s (toNumeric b)) = z at *
-  exact canon_intToValue_inrange _ h.1 h.2
-theorem xor_canon (s : Shapes) (a b : Num) : Canon (opXor s a b) := by
+  have h := bit32_range Nat.lor (toInt32 (toNumeric a)) (toInt32 (toNumeric b))
+  generalize bit32 Nat.lor (toInt32 (toNumeric a)) (toInt32 (toNumeric b)) = z at *
+  exact canon_intToValue_inrange h.1 h.2
+theorem xor_canon (a b : Num) : Canon (opXor a b) := by
   unfold opXor
-  have h := bit32_range Nat.xor (toInt32 s (toNumeric a)) (toInt32 s (toNumeric b))
-  generalize bit32 Nat.xor (toInt32 s (toNumeric a)) (toInt32 s (toNumeric b)) = z at *
-  exact canon_intToValue_inrange _ h.1 h.2
-theorem bnot_canon (s : Shapes) (a : Num) : Canon (opBnot s a) := by
-  have h := toIntS32_range s.core (toNumeric a)
-  apply canon_intToValue_inrange
-  · simp only [toInt32, maxInt] at *; have := wrapS32_range 0; cases hx : toNumeric a <;> simp only [hx, toIntS] at * <;>
-      first | (simp only [wrapS]; omega) | (split <;> simp only [wrapS] <;> omega)
-  · simp only [toInt32, maxInt] at *; cases hx : toNumeric a <;> simp only [hx, toIntS] at * <;>
-      first | (simp only [wrapS]; omega) | (split <;> simp only [wrapS] <;> omega)
-theorem shl_canon (s : Shapes) (a b : Num) : Canon (opShl s a b) := by
-  unfold opShl; exact canon_intToValue_inrange _ (wrapS32_range _).1 (wrapS32_range _).2
-theorem sar_canon (s : Shapes) (a b : Num) : Canon (opSar s a b) := by
-  unfold opSar; exact canon_intToValue_inrange _ (wrapS32_range _).1 (wrapS32_range _).2
-theorem shr_canon (s : Shapes) (a b : Num) : Canon (opShr s a b) := by
-  unfold opShr; exact canon_intToValue_inrange _ (wrapU32_range _).1 (wrapU32_range _).2
+  have h := bit32_range Nat.xor (toInt32 (toNumeric a)) (toInt32 (toNumeric b))
+  generalize bit32 Nat.xor (toInt32 (toNumeric a)) (toInt32 (toNumeric b)) = z at *
+  exact canon_intToValue_inrange h.1 h.2
+theorem bnot_canon (a : Num) : Canon (opBnot a) := by
+  have h : -(2 ^ 31 : Int) ≤ toIntS 32 (toNumeric a) ∧ toIntS 32 (toNumeric a) < 2 ^ 31 := by
+    cases toNumeric a with
+    | int i => simp only [toIntS, wrapS]; omega
+    | flt f =>
+      simp only [toIntS]
+      split
+      · simp only [wrapS]; omega
+      · omega
+  unfold opBnot toInt32
+  generalize toIntS 32 (toNumeric a) = z at *
+  apply canon_intToValue_inrange <;> (simp only [maxInt]; omega)
+theorem shl_canon (a b : Num) : Canon (opShl a b) := by
+  unfold opShl; exact canon_intToValue_inrange (wrapS32_range _).1 (wrapS32_range _).2
+theorem sar_canon (a b : Num) : Canon (opSar a b) := by
+  unfold opSar; exact canon_intToValue_inrange (wrapS32_range _).1 (wrapS32_range _).2
+theorem shr_canon (a b : Num) : Canon (opShr a b) := by
+  unfold opShr; exact canon_intToValue_inrange (wrapU32_range _).1 (wrapU32_range _).2
 
-/-- PARTIAL (pinned-commit tail): `a + b` of two canonical ints is canonical unless the exact sum is ±(2^53+1)…
-stated here only for sums within ±2^53; see `add_raw_not_canon_witness`. -/
-theorem add_canon_raw_partial (c : Core) (z : MulZ) {x y : Int} (h1 : -maxInt ≤ x + y) (h2 : x + y ≤ maxInt) (r : F64) :
-    Canon (opAdd ⟨.raw, c, z⟩ (int x) (int y) r) := canon_intToValue_inrange .raw h1 h2
+/-- Float paths: whatever the operands, when the wrapper applied is `floatToValue r` the result is the unique
+canonical value denoting the IEEE result `r` (stated for `+` on a float operand; the other float paths are the
+same expression `floatToValue r`). -/
+theorem add_float_path_denotes (f : F64) (b : Num) (r : F64) :
+    specSameValue (opAdd (flt f) b r).toF64 r = true := by
+  simp only [opAdd]; exact floatToValue_denotes' r
 
-/-- DEFECT witness: `2^53 + 1` on two ints. -/
-theorem add_raw_not_canon_witness (c : Core) (z : MulZ) (r : F64) : ¬ Canon (opAdd ⟨.raw, c, z⟩ (int (2 ^ 53)) (int 1) r) := by
-  simp only [opAdd]; decide
+/-- Int paths of `+ - ++ --`: the result denotes `float64` of the EXACT integer result (which is what IEEE
+addition of two exactly represented integers yields: the correctly rounded exact sum). -/
+theorem add_int_path_denotes (x y : Int) (r : F64) :
+    specSameValue (opAdd (int x) (int y) r).toF64 (F64.ofInt (x + y)) = true := intToValue_denotes' _
+theorem sub_int_path_denotes (x y : Int) (r : F64) :
+    specSameValue (opSub (int x) (int y) r).toF64 (F64.ofInt (x - y)) = true := intToValue_denotes' _
+theorem inc_int_path_denotes (x : Int) (r : F64) :
+    specSameValue (opInc (int x) r).toF64 (F64.ofInt (x + 1)) = true := intToValue_denotes' _
+theorem dec_int_path_denotes (x : Int) (r : F64) :
+    specSameValue (opDec (int x) r).toF64 (F64.ofInt (x - 1)) = true := intToValue_denotes' _
 
-/-- DEFECT witness (value, not representation): the int fast path of `*` at the pinned commit gives `0 * -5 = +0`;
-IEEE gives `-0`. -/
-theorem mul_int_zero_sign_witness (t : Tail) (c : Core) (r : F64) :
-    opMul ⟨t, c, .minusOne⟩ (int 0) (int (-5)) r = int 0 ∧ specSameValue (int 0).toF64 F64.negZero = false := by
-  refine ⟨?_, by decide⟩
-  cases t <;> simp [opMul, mulNegZero, toNumeric, intToValue, maxInt, wrapS, goQuot]
-
-/-- Repaired `_mul`: a zero product of two ints with a negative factor is `-0`, for ALL such operands. -/
-theorem mul_int_zero_sign_fixed (t : Tail) (c : Core) (r : F64) {x y : Int}
-    (h : (x = 0 ∧ y < 0) ∨ (x < 0 ∧ y = 0)) :
-    opMul ⟨t, c, .anyNeg⟩ (int x) (int y) r = flt F64.negZero := by
+/-- `_mul` after bd78985: a zero product of two ints with a negative factor is `-0`, for ALL such operands … -/
+theorem mul_int_zero_sign (r : F64) {x y : Int} (h : (x = 0 ∧ y < 0) ∨ (x < 0 ∧ y = 0)) :
+    opMul (int x) (int y) r = flt F64.negZero := by
   simp [opMul, mulNegZero, toNumeric, h]
 
-/-! ## 4. Integer conversions = ECMAScript abstract operations, for ALL doubles (repaired core) -/
+/-- … and every other zero product is `+0` (so the sign of an int×int zero is the IEEE sign, always). -/
+theorem mul_int_zero_pos (r : F64) {x y : Int} (hx : -maxInt ≤ x ∧ x ≤ maxInt) (hy : -maxInt ≤ y ∧ y ≤ maxInt)
+    (h0 : x * y = 0) (h : ¬ ((x = 0 ∧ y < 0) ∨ (x < 0 ∧ y = 0))) :
+    opMul (int x) (int y) r = int 0 := mul_int_zero_pos' r hx hy h0 h
 
-theorem toInt32_spec {a : Num} (ha : Canon a) : toIntS .mod 32 a = specToIntS 32 a.toF64 := toIntS_mod_spec32 ha
-theorem toInt16_spec {a : Num} (ha : Canon a) : toIntS .mod 16 a = specToIntS 16 a.toF64 := toIntS_mod_spec16 ha
-theorem toInt8_spec {a : Num} (ha : Canon a) : toIntS .mod 8 a = specToIntS 8 a.toF64 := toIntS_mod_spec8 ha
-theorem toUint32_spec {a : Num} (ha : Canon a) : toIntU .mod 32 a = specToIntU 32 a.toF64 := toIntU_mod_spec32 ha
-theorem toUint16_spec {a : Num} (ha : Canon a) : toIntU .mod 16 a = specToIntU 16 a.toF64 := toIntU_mod_spec16 ha
-theorem toUint8_spec {a : Num} (ha : Canon a) : toIntU .mod 8 a = specToIntU 8 a.toF64 := toIntU_mod_spec8 ha
+/-- Regression lemma (before bd78985 the guard was `0 * -1 | -1 * 0` only): `0 * -5` took the integer path. -/
+theorem mul_prefix_witness : mulNegZeroPrefix 0 (-5) = false ∧ mulNegZero 0 (-5) = true := by decide
 
-/-- PARTIAL (pinned-commit `int64(f)`): equal to the spec whenever trunc(f) fits an `int64`
-(|f| < 2^63); missing: 2^63 ≤ |f| < 2^84 (beyond that every double is a multiple of 2^32 and 0 is right). -/
-theorem toInt32_spec_raw_partial {a : Num} (ha : Canon a) (h : ∀ f, a = flt f → InInt64 f.truncInt) :
-    toIntS .raw 32 a = specToIntS 32 a.toF64 := by rw [toIntS_raw_eq_mod h]; exact toIntS_mod_spec32 ha
-theorem toUint32_spec_raw_partial {a : Num} (ha : Canon a) (h : ∀ f, a = flt f → InInt64 f.truncInt) :
-    toIntU .raw 32 a = specToIntU 32 a.toF64 := by rw [toIntU_raw_eq_mod h]; exact toIntU_mod_spec32 ha
-theorem toInt16_spec_raw_partial {a : Num} (ha : Canon a) (h : ∀ f, a = flt f → InInt64 f.truncInt) :
-    toIntS .raw 16 a = specToIntS 16 a.toF64 := by rw [toIntS_raw_eq_mod h]; exact toIntS_mod_spec16 ha
-theorem toUint16_spec_raw_partial {a : Num} (ha : Canon a) (h : ∀ f, a = flt f → InInt64 f.truncInt) :
-    toIntU .raw 16 a = specToIntU 16 a.toF64 := by rw [toIntU_raw_eq_mod h]; exact toIntU_mod_spec16 ha
-theorem toInt8_spec_raw_partial {a : Num} (ha : Canon a) (h : ∀ f, a = flt f → InInt64 f.truncInt) :
-    toIntS .raw 8 a = specToIntS 8 a.toF64 := by rw [toIntS_raw_eq_mod h]; exact toIntS_mod_spec8 ha
-theorem toUint8_spec_raw_partial {a : Num} (ha : Canon a) (h : ∀ f, a = flt f → InInt64 f.truncInt) :
-    toIntU .raw 8 a = specToIntU 8 a.toF64 := by rw [toIntU_raw_eq_mod h]; exact toIntU_mod_spec8 ha
+/-! ## 4. Integer conversions = ECMAScript abstract operations, for ALL doubles -/
 
-/-- DEFECT witness: ToInt32(2^63 + 2^11) = 2048, the pinned code (amd64) gives 0.  Bits 0x43E0000000000001. -/
-theorem toInt32_raw_witness :
-    toIntS .raw 32 (flt (F64.mk' false 1086 1)) = 0 ∧ specToIntS 32 (F64.mk' false 1086 1) = 2048 := by decide
+/-- the helper of c5b41a6 is reduction modulo 2^64 into the int64 range, for every finite double -/
+theorem float64ToInt64Mod_spec (f : F64) : float64ToInt64Mod f = wrapS 64 f.truncInt := float64ToInt64Mod_eq f
+
+theorem toInt32_spec {a : Num} (ha : Canon a) : toIntS 32 a = specToIntS 32 a.toF64 := toIntS_mod_spec32 ha
+theorem toInt16_spec {a : Num} (ha : Canon a) : toIntS 16 a = specToIntS 16 a.toF64 := toIntS_mod_spec16 ha
+theorem toInt8_spec {a : Num} (ha : Canon a) : toIntS 8 a = specToIntS 8 a.toF64 := toIntS_mod_spec8 ha
+theorem toUint32_spec {a : Num} (ha : Canon a) : toIntU 32 a = specToIntU 32 a.toF64 := toIntU_mod_spec32 ha
+theorem toUint16_spec {a : Num} (ha : Canon a) : toIntU 16 a = specToIntU 16 a.toF64 := toIntU_mod_spec16 ha
+theorem toUint8_spec {a : Num} (ha : Canon a) : toIntU 8 a = specToIntU 8 a.toF64 := toIntU_mod_spec8 ha
+
+/-- Regression lemma (before c5b41a6 the float branch was `int32(int64(f))`): ToInt32(2^63 + 2^11) = 2048, the old
+code gave 0 on amd64.  Bits 0x43E0000000000001. -/
+theorem toInt32_prefix_witness :
+    toInt32Prefix (flt (F64.mk' false 1086 1)) = 0 ∧ specToIntS 32 (F64.mk' false 1086 1) = 2048 ∧
+    toIntS 32 (flt (F64.mk' false 1086 1)) = 2048 := by decide
 
 /-- `floatToIntClip` (`valueFloat.ToInteger`) is ToIntegerOrInfinity clamped to int64, for all doubles. -/
 theorem floatToIntClip_spec (f : F64) : floatToIntClip f = specToIntegerClamped f := floatToIntClip_spec' f
 
-/-- `toLength` = ToLength, `toIndex` = ToIndex for all canonical values (all doubles). -/
+/-- `toLength` = ToLength, `toIndex` = ToIndex, `toUint8Clamp` = ToUint8Clamp, `toLengthUint32` = the ArraySetLength
+number test, for all canonical values (all doubles). -/
 theorem toLength_spec {a : Num} (ha : Canon a) : toLength a = specToLength a.toF64 := toLength_spec' ha
 theorem toIndex_spec {a : Num} (ha : Canon a) : toIndex a = specToIndex a.toF64 := toIndex_spec' ha
+theorem toUint8Clamp_spec {a : Num} (ha : Canon a) : toUint8Clamp a = specToUint8Clamp a.toF64 :=
+  toUint8Clamp_spec' ha
+theorem toLengthUint32_spec {a : Num} (ha : Canon a) : toLengthUint32 a = specArrayLength a.toF64 :=
+  toLengthUint32_spec' ha
 
-/-! ## 5. Hypotheses are satisfiable / non-vacuity (tests on literals) -/
+/-! ## 5. String → number: grammar-level decisions of the fixed code (see `StrNum.lean`) -/
+
+/-- The set goja trims (`parser.WhitespaceChars`, regenerated into `Tie`) is exactly WhiteSpace ∪ LineTerminator of
+ECMA-262 (table check over the whole table, both inclusions). -/
+theorem trimSet_eq_spec : ∀ c, StrNum.isTrimChar c = StrNum.specIsStrWhiteSpace c := StrNum.trimSet_eq_spec'
+
+/-- Trimming removes exactly the maximal white-space prefix and suffix: what is left neither starts nor ends with
+a trimmed code point, and nothing but trimmed code points was removed. -/
+theorem trim_correct (s : List Nat) :
+    (∃ pre suf, s = pre ++ StrNum.trim s ++ suf ∧ pre.all StrNum.isTrimChar = true ∧ suf.all StrNum.isTrimChar = true) ∧
+    (∀ c rest, StrNum.trim s = c :: rest → StrNum.isTrimChar c = false) ∧
+    (∀ c, (StrNum.trim s).getLast? = some c → StrNum.isTrimChar c = false) := StrNum.trim_correct' s
+
+/-- U+0085 (NEL, trimmed by Go's `strings.TrimSpace` before e80e384) is not trimmed. -/
+theorem nel_not_trimmed : StrNum.isTrimChar 0x85 = false := by decide
+
+/-- (`mechT`/`specT` are the decisions on the TRIMMED string; `mech = mechT ∘ trim`.)
+A sign after a radix prefix is never accepted (d6061d6): for every base letter, sign and rest. -/
+theorem radix_sign_rejected (p sgn : Nat) (rest : List Nat) (hp : StrNum.radixOfLetter p ≠ 0)
+    (hs : sgn = 0x2B ∨ sgn = 0x2D) : StrNum.mechT (0x30 :: p :: sgn :: rest) = StrNum.Res.nan :=
+  StrNum.radix_sign_rejected' p sgn rest hp hs
+
+/-- A radix literal has NO int64 limit any more (d6061d6): for every base letter and every non-empty list of digits
+valid in that base, the result is the exact integer value of the digits (arbitrarily large). -/
+theorem radix_literal_exact (p : Nat) (ds : List Nat) (hp : StrNum.radixOfLetter p ≠ 0) (hne : ds ≠ [])
+    (hd : ds.all (fun c => decide (StrNum.digitVal c < StrNum.radixOfLetter p)) = true) :
+    StrNum.mechT (0x30 :: p :: ds) = StrNum.Res.exactInt false (StrNum.digitsValue (StrNum.radixOfLetter p) ds) :=
+  StrNum.radix_literal_exact' p ds hp hne hd
+
+/-- The mechanism's decisions agree with the spec-level recogniser of StringNumericLiteral on every string made of
+an optional sign and decimal digits (7637e2e: "-0", "-00", … are -0; any number of digits is the exact integer). -/
+theorem signed_digits_agree (neg : Bool) (ds : List Nat) (hne : ds ≠ [])
+    (hd : ds.all StrNum.isDecDigit = true) :
+    StrNum.mechT ((if neg then [0x2D] else []) ++ ds) = StrNum.specT ((if neg then [0x2D] else []) ++ ds) :=
+  StrNum.signed_digits_agree' neg ds hne hd
+
+/-! ## 6. Hypotheses are satisfiable / non-vacuity (tests on literals) -/
 
 example : Canon (int 7) ∧ Canon (flt F64.negZero) ∧ Canon (flt (F64.mk' false 1030 1)) :=
   ⟨by decide, canon_negZero, by decide⟩
 example : ¬ Canon (flt (F64.mk' false 1024 0)) ∧ ¬ Canon (flt (F64.mk' true 2047 5)) := by decide
 example : floatToValue (F64.mk' false 1025 (2 ^ 51)) = int 6 := by decide      -- 6.0 ↦ valueInt(6)
-example : toIntS .mod 32 (flt (F64.mk' false 1086 1)) = 2048 := by decide
+example : intToValue (2 ^ 53 + 1) = int (2 ^ 53) := by decide                  -- the repaired tail
+example : toIntS 32 (flt (F64.mk' false 1086 1)) = 2048 := by decide
 
 end GojaModel.C05.Props
